@@ -208,6 +208,22 @@ def trajectory_part(ck: Check, rnd):
             E = np.array([crtbp_energy(s, system.mu) for s in traj.states])
             cs.obs(t, "energy_drift", float(np.max(np.abs(E - E[0]))))
             cs.obs(t, "jacobi_plus_2E", float(np.max(np.abs(np.array([energy_to_jacobi(e) for e in E]) + 2 * E))))
+    # the energy / Jacobi constant the OBJECTS report are those of the kernel checked exactly above
+    for sname, system in sysd.items():
+        L = system.get_libration_point(1)
+        t = cs.trace(f"{sname}|object-reported-energy", {"orbit_energy_binding": -130, "orbit_jacobi_binding": -130, "point_energy_binding": -130},
+                     {"system": sname, "kind": "objects"})
+        ck.count(("objects", sname), True)
+        for kind, ic in ics.items():
+            orb = L.create_orbit("generic", initial_state=list(ic))
+            e_ref = crtbp_energy(np.asarray(ic, dtype=float), system.mu)
+            cs.obs(t, "orbit_energy_binding", abs(float(orb.energy) - e_ref))
+            cs.obs(t, "orbit_jacobi_binding", abs(float(orb.jacobi) + 2 * e_ref))
+        for i in (1, 2, 3, 4, 5):
+            P = system.get_libration_point(i)
+            st = np.concatenate([np.asarray(P.position, dtype=float), np.zeros(3)])
+            cs.obs(t, "point_energy_binding", max(abs(float(P.energy) - crtbp_energy(st, system.mu)),
+                                                  abs(float(P.jacobi) + 2 * crtbp_energy(st, system.mu))))
     cs.decide(key_fn=lambda t, n: ("propagate|reported-energy-not-constant-" + t["data"]["kind"]) if n == "energy_drift"
               else f"energy|contract:{n}")
     cs.selftest()
